@@ -127,9 +127,12 @@ LoanEv(ev, t) ==
          THEN LoanTxChecks(st, t, script) \o (IF pred.ok THEN DriftChecks(pred.s, ev.obs) ELSE <<>>)
          ELSE Unchanged(ev, t, "C06"))
 
+RECURSIVE SumRepay(_)
+SumRepay(sub) == IF sub = <<>> THEN Zero ELSE Head(sub).x ++ SumRepay(Tail(sub))
 RouterLoanEv(ev, t) ==
   LET amt == ev.args.amt  sub == ev.args.script  u == ev.actor
-      pred == RunRouterLoan(st, u, amt, sub)
+      att == ev.args.att
+      pred == RunRouterLoanA(st, u, amt, sub, att)
       script == <<[a |-> "loan", x |-> amt, sub |-> sub]>>
       valid == st.tog.l /\ Zero \prec amt /\ amt \preceq st.bal
       fees == Payback(st, amt) -- amt
@@ -138,13 +141,20 @@ RouterLoanEv(ev, t) ==
            \* (the borrower hands the router the fees, or more: the router still holds the loan itself)
            (valid /\ st.rb = Zero /\ Zero \prec fees /\ IsSingleRepayAtLeast(sub, fees, st.aw)) => ev.res = "ok">>,
         <<"C06.router.one-unit-less-never-suffices",
-           (valid /\ st.rb = Zero /\ Zero \prec fees /\ IsSingleRepay(sub, fees -- One)) => ev.res # "ok">>,
+           \* (coins attached by the initiator are the initiator's own contribution: they can cover the missing unit)
+           (valid /\ st.rb = Zero /\ att = Zero /\ Zero \prec fees /\ IsSingleRepay(sub, fees -- One)) => ev.res # "ok">>,
         <<"drift.tx.verdict", pred.ok = (ev.res = "ok")>> >>
      \o (IF ev.res = "ok"
          THEN LoanTxChecks(st, t, script)
               \o << <<"C06.router.keeps-nothing", t.rb = Zero>>,
+                    \* everything the router held - the loan, the coins the initiator attached, what the payload handed it -
+                    \* minus the quoted payback goes to the initiator and to nobody else (exact when the payload only repays;
+                    \* otherwise, without attached coins, the initiator at least loses nothing)
                     <<"C06.router.rest-to-initiator-only",
-                       st.w[u] \preceq t.w[u] /\ \A v \in Users \ {u} : t.w[v] = st.w[v]>> >>
+                       /\ \A v \in Users \ {u} : t.w[v] = st.w[v]
+                       /\ IF \A i \in DOMAIN sub : sub[i].a = "repay"
+                          THEN (t.w[u] ++ Payback(st, amt)) = ((st.w[u] ++ amt) ++ SumRepay(sub))
+                          ELSE att = Zero => st.w[u] \preceq t.w[u]>> >>
               \o (IF pred.ok THEN DriftChecks(pred.s, ev.obs) ELSE <<>>)
          ELSE Unchanged(ev, t, "C06"))
 
